@@ -26,6 +26,14 @@ pub struct Case {
     pub use_stream: bool,
 }
 
+/// What the blocking iterator makes of the first `upto` bytes when the source then fails instead of
+/// ending: the items completely contained in them (no closing Ends, nothing of an unfinished buffered master).
+fn reference_prefix(c: &Case, upto: usize) -> RTrace {
+    let cfg = IterCfg { buffered: c.buffered.clone(), eof_end: false, ..Default::default() };
+    let input = Arc::new(c.input[..upto].to_vec());
+    run_reader(&c.spec, &ReaderSetup { input, virtual_tail: 0, cfg: &cfg, script: &RScript::whole(), driver: &Driver::UntilEnd { extra: 0 }, max_steps: 4 * upto + 64, keep_read_log: false })
+}
+
 fn reference(c: &Case) -> RTrace {
     let cfg = IterCfg { buffered: c.buffered.clone(), ..Default::default() };
     let n = c.input.len();
@@ -48,6 +56,8 @@ fn delivered_after_reads(c: &Case, reads: usize) -> Vec<usize> {
         };
         if let AEv::Ready(k) = ev {
             pos += k.max(1).min(65536).min(total - pos);
+            v.push(pos);
+        } else if let AEv::Fail(_) = ev {
             v.push(pos);
         }
     }
@@ -224,6 +234,22 @@ impl Check for C20 {
                 }
             }
         }
+        // source fault: one run in eight has a read fail hard somewhere in the schedule (if the events do not
+        // cover the input, the dribble before the fault is made explicit)
+        if rng.chance(1, 8) {
+            if rest > 0 && n > 0 {
+                let upto = rng.range(0, n);
+                let mut total: usize = events.iter().map(|e| if let AEv::Ready(k) = e { (*k).min(n) } else { 0 }).sum();
+                while total < upto && events.len() < 3000 {
+                    events.push(AEv::Ready(rest));
+                    total += rest;
+                }
+                events.push(AEv::Fail(rng.below(4) as u8));
+            } else {
+                let at = rng.range(0, events.len());
+                events.insert(at, AEv::Fail(rng.below(4) as u8));
+            }
+        }
         Case { spec, input: Arc::new(gi.bytes), buffered, script: AScript { events, rest }, use_stream: rng.chance(1, 3) }
     }
 
@@ -288,6 +314,25 @@ impl Check for C20 {
                 st.class(f.0);
             }
         }
+        if let Some((at, token)) = a.failures.first() {
+            // the source failed after `at` bytes: everything completely contained in them, then the error itself
+            st.inc("fault_async_read_error_delivered");
+            let pre = reference_prefix(c, *at);
+            if pre.panic().is_some() || pre.step_cap_hit {
+                st.inc("skipped_reference_not_total");
+                return Ok(ExecOk { nontrivial: false });
+            }
+            let mut want: Vec<Ev> = pre.ok_prefix().into_iter().map(|(t, o)| Ev::Tag(t, o)).collect();
+            let kind = c.script.events.iter().find_map(|e| if let AEv::Fail(k) = e { Some(*k) } else { None }).unwrap_or(0);
+            want.push(Ev::Err(crate::val::ErrV::Read { kind: format!("{:?}", crate::io::FAULT_KINDS[kind as usize % crate::io::FAULT_KINDS.len()]), token: *token }));
+            let mut synthetic = pre;
+            synthetic.evs = want;
+            if a.evs.len() > 1 {
+                st.inc("probe_items_before_async_read_error");
+            }
+            judge(c, &synthetic, &a)?;
+            return Ok(ExecOk { nontrivial: a.evs.len() >= 2 });
+        }
         judge(c, &refr, &a)?;
         if sv.is_some() {
             st.inc("probe_starved_schedule_passed");
@@ -311,6 +356,7 @@ impl Check for C20 {
                 AEv::Ready(k) => *k as u64,
                 AEv::PendingWakeNow => u64::MAX - 1,
                 AEv::PendingWakeLater => u64::MAX - 2,
+                AEv::Fail(k) => u64::MAX - 3 - *k as u64,
             });
         }
         for b in &c.buffered {
@@ -368,7 +414,7 @@ impl Check for C20 {
     }
 
     fn rule(&self) -> &'static str {
-        "One case = specification + input (valid / truncated / byte-faulted; some larger than the 64 KiB transfer buffer) + buffered-id set + an async delivery schedule (fill-the-buffer reads, fixed small reads down to 1 byte, single split, large head then dribble, random compositions; Pending with immediate or deferred wake before a random subset of reads) driving TagIteratorAsync::next() or the into_stream() adapter on a single-threaded executor; events (items, offsets for next(), first error, single termination) must equal those of the blocking iterator over the same bytes; lost wake-ups and poll budgets are detected. Non-trivial: at least 3 events and at least 2 completed reads. Distinct: FNV-1a fingerprint of bytes + schedule + buffered set. coverage.distinct_schedule_classes counts distinct sets of (parser phase at which an async read ended, nesting depth, innermost master kind) x adapter x Pending/buffered/error flags (inputs <= 600 bytes)."
+        "One case = specification + input (valid / truncated / byte-faulted; some larger than the 64 KiB transfer buffer) + buffered-id set + an async delivery schedule (fill-the-buffer reads, fixed small reads down to 1 byte, single split, large head then dribble, random compositions; Pending with immediate or deferred wake before a random subset of reads; in one run of eight one read fails with a hard I/O error) driving TagIteratorAsync::next() or the into_stream() adapter on a single-threaded executor; events (items, offsets for next(), first error, single termination) must equal those of the blocking iterator over the same bytes; after an injected read error: exactly the items completely contained in the bytes delivered before it, then a ReadError carrying that error; lost wake-ups and poll budgets are detected. Non-trivial: at least 3 events and at least 2 completed reads. Distinct: FNV-1a fingerprint of bytes + schedule + buffered set. coverage.distinct_schedule_classes counts distinct sets of (parser phase at which an async read ended, nesting depth, innermost master kind) x adapter x Pending/buffered/error flags (inputs <= 600 bytes)."
     }
     fn assumptions(&self) -> Vec<&'static str> {
         vec![
@@ -377,6 +423,6 @@ impl Check for C20 {
         ]
     }
     fn expected_probes(&self) -> Vec<&'static str> {
-        vec!["schedules_never_starved", "schedules_with_a_starved_call", "probe_input_larger_than_transfer_buffer", "probe_one_byte_reads", "fault_pending_delivered", "stream_adapter_runs", "next_runs"]
+        vec!["schedules_never_starved", "schedules_with_a_starved_call", "probe_input_larger_than_transfer_buffer", "probe_one_byte_reads", "fault_pending_delivered", "stream_adapter_runs", "next_runs", "fault_async_read_error_delivered", "probe_items_before_async_read_error"]
     }
 }
